@@ -279,6 +279,7 @@ class Repo:
             self.modules[m.rel] = m
             self.by_name[m.name] = m
         self._mro_cache = {}
+        self.consulted = set()      # (file, qualname[:setter]) of every function a rule asked for by name
 
     # ---- lookup ----------------------------------------------------------------
     def module(self, rel):
@@ -305,6 +306,7 @@ class Repo:
             f = m.functions.get(qual)
         if f is None:
             raise AnalysisError(f"anchor function {rel}::{qual}{' (setter)' if setter else ''} not found")
+        self.consulted.add((rel, qual + (":setter" if setter else "")))
         return f
 
     def try_func(self, rel, qual, setter=False):
